@@ -59,7 +59,6 @@ FLOOR = "1e-18"
 RUN_TIMEOUT = 40
 KEY_CD = "cd_music-species-without-charge-distribution"
 KEY_NEG = "negative-total-recovery-with-kinetics"
-KEY_RK2 = "rk2-restores-solid-solution"
 KEY_ABS = "absent-phase-element-drift"
 
 
@@ -381,11 +380,6 @@ def judge_history(ctx, h, res, pm):
             # same known finding: step() returned MASS_BALANCE ("Negative moles in solution ... Recovering...") under the
             # kinetics driver and the call still returned no error
             out.setdefault("findings", []).append((KEY_NEG, "simulation %d: MASS_BALANCE recovery under KINETICS; %s"
-                                                   % (s, json.dumps(bad[:3])), s))
-            bad = []
-        if bad and "kinetics" in plan["use"] and "solid_solutions" in plan["use"] and \
-                val(before[("KINETICS_RAW", plan["use"]["kinetics"])]["opts"], "rk") == "2":
-            out.setdefault("findings", []).append((KEY_RK2, "simulation %d: KINETICS -runge_kutta 2 with SOLID_SOLUTIONS; %s"
                                                    % (s, json.dumps(bad[:3])), s))
             bad = []
         if bad and "equilibrium_phases" in plan["use"]:
